@@ -179,6 +179,7 @@ func specGenuineER6(s *icmpDriver, p *packets.FrameParser, t uint8) bool {
 //@ func (*icmpDriver).SendProbe
 //@ safety C06 C05
 //@ requires[pre.nonnil]   s != nil && s.sink != nil && s.sentProbes != nil
+//@ requires[C10.send.open]  selb(isOpen, ref(s.sink))
 //@ requires[pre.past]     forall(k, 0, 256, s.sentProbes[k] <= now())
 //@ ensures[C06.once]      ret0 == nil ==> !old(specSent(s, ttl)) && !old(has(s.sentProbes, ttl)) && specSent(s, ttl) && specInRange(s, ttl)
 //@ ensures[C06.others]    forall(k, 0, 256, k != int(ttl) ==> s.sentProbes[k] == old(s.sentProbes[k]) && has(s.sentProbes, k) == old(has(s.sentProbes, k)))
@@ -194,6 +195,7 @@ func specGenuineER6(s *icmpDriver, p *packets.FrameParser, t uint8) bool {
 //@ func (*icmpDriver).ReceiveProbe
 //@ safety C09
 //@ requires[pre.nonnil]     s != nil && s.source != nil && s.parser != nil && s.parser.parserv4 != nil && s.parser.parserv6 != nil
+//@ requires[C10.recv.open]  selb(isOpen, ref(s.source))
 //@ requires[pre.past]       forall(k, 0, 256, s.sentProbes[k] <= now())
 //@ ensures[C09.recv.xor]    (ret0 == nil) != (ret1 == nil)
 //@ ensures[C09.recv.class]  ret1 != nil && !chain(ret1, *common.ReceiveProbeNoPktError) && !chain(ret1, *common.BadPacketError) ==> ioFail
